@@ -270,6 +270,23 @@ Example C10_point_classes :
   = repeat (E_FSE, E_UDE) 10.
 Proof. vm_compute. reflexivity. Qed.
 
+(* a hand-over that fails inside the queue proxy (reset / broken connection
+   to the manager, EOF, any OSError) is a task exception like any other: the
+   put sits inside execute()'s try, so it leaves as FileSearchException *)
+Example C10_put_failure_classes :
+  map (fun e => let '(i, _) := point_pos AL SY SO 1 2 PtBeforePut in
+                main_class F (raise_class F (mk None 0 0) 0 i e))
+      ["ConnectionResetError"; "BrokenPipeError"; "ConnectionError";
+       "EOFError"; "OSError"]%string
+  = repeat E_FSE 5.
+Proof. vm_compute. reflexivity. Qed.
+
+Example C10_example_connection_reset_at_put :
+  let c := mk (Some (1, PtBeforePut, KRaise "ConnectionResetError")) 1 1 in
+  let s := go c 60 in
+  s_fired s = true /\ s_pc s = MRaised E_FSE /\ cleanb c s = true.
+Proof. vm_compute. repeat split; reflexivity. Qed.
+
 (* non-vacuity: the hypotheses are satisfiable and the conclusions are hit *)
 Example C10_example_fault_free_returns :
   let c := mk None 1 1 in let s := go c 60 in
